@@ -616,6 +616,11 @@ def m_set_clear(tr, c):
 
 def _key_of(tr, v) -> str:
     """set key argument: by value or by reference"""
+    import mvmodels
+    try:
+        return mvmodels.key_of(tr, v)
+    except TranslateError:
+        pass
     if isinstance(v, (VRef,)) or (isinstance(v, VLoc) and v.loc.node.kind == "ref"):
         loc = tr.deref(v)
         while loc.node.kind == "ref":
@@ -636,6 +641,8 @@ def m_set_insert(tr, c):
     if d is not None and d.node.kind == "scalar":
         tr.emit(f"{tr.lv(d)} = !{cell};")
     tr.emit(f"{cell} = 1;")
+    if "keys" in s.node.names:
+        tr.store(Loc(s.node.f("keys").elem, s.idxs + [k]), c.args[1])
 
 
 @model("HashSet::contains", "AHashSet::contains")
@@ -706,8 +713,11 @@ def m_iter_next(tr, c):
     tr.emit(f"if ({rem}) {{")
     tr.emit(f"  {k} = nondet_usize(); __CPROVER_assume({k} < {p.cap} && {p.elem.name}{sub(s.idxs + [k])} && !{vis.elem.name}{sub(itl.idxs + [k])});")
     tr.emit(f"  {vis.elem.name}{sub(itl.idxs + [k])} = 1; {tr.lv(Loc(it.f('cur'), itl.idxs))} = {k}; {dd} = {si};")
-    tr.emit(f"}} else {{ {dd} = {ni}; }}")
-    tr.store(Loc(n.variants[si][1].fields[0], d.idxs), VRef(it.f("cur"), itl.idxs))
+    tr.emit(f"}} else {{ {dd} = {ni}; {tr.lv(Loc(it.f('cur'), itl.idxs))} = 0; }}")
+    if "keys" in s.node.names:
+        tr.store(Loc(n.variants[si][1].fields[0], d.idxs), VRef(s.node.f("keys").elem, s.idxs + [tr.lv(Loc(it.f('cur'), itl.idxs))]))
+    else:
+        tr.store(Loc(n.variants[si][1].fields[0], d.idxs), VRef(it.f("cur"), itl.idxs))
 
 
 @model("<AHashSet as Default>::default", "<HashSet as Default>::default", "AHashSet::new", "HashSet::new",
@@ -1218,3 +1228,7 @@ def install(tr: Translator):
     install_types(tr)
     import models2
     models2.install(tr)
+    import mvmodels
+    mvmodels.install(tr)
+    import itermodels
+    itermodels.install(tr)
